@@ -70,6 +70,13 @@ def oracle(res, cfg, o, rng, limit):
             others = set(v for k, v in kinds.items() if k != 'iter')
             if 0 not in kinds.values() and kinds['iter'] == (3,) and len(others) == 1 and k1_shape(o, limit):
                 tag = ' K1-shape'
+            else:
+                # K3: the failing descendant sits at a child index for which the custom node declared
+                # no entry: the with-path traversals notice the missing entry before they reach it
+                eager = {kinds[k] for k in ('with_path', 'paths', 'iter')}
+                lazy = {kinds[k] for k in ('flatten', 'with_accessor', 'leaves', 'structure', 'accessors')}
+                if 0 not in kinds.values() and eager == {(3,)} and len(lazy) == 1 and k1_shape(o, limit):
+                    tag = ' K3-shape'
             res.fail('traversals disagree on success / exception type', case,
                      f'{kinds}{tag}')
             return
@@ -174,6 +181,8 @@ def run(res, tier, seed):
             cases.append(((0, 0, 5, (), (), limit), _replace_leaf_by_none(t), 'deep'))
     cfgk = (0, 0, 0, ((0, 0, 1, 0),), (), limit)
     cases.append((cfgk, (1, (9, 0, 0, (2, (0, 0), (0, 1))), gen.depth_tree('list', limit + 1)), 'k1'))
+    # K3: more children than entries, the child without an entry fails by itself (its flatten raises)
+    cases.append((cfgk, (1, (9, 0, 0, (2, (0, 0), (0, 1))), (0, 1), (0, 2), (1, (9, 0, 2, (4, 26)))), 'k3'))
     cmds, obs = [], []
     for (cfg, o, label) in cases:
         res.count('stream_' + label)
